@@ -275,3 +275,72 @@ package eval
 //@   exit [defers-run-once-after-body] ncalls == 2 ==> callis(0, "effectOp.exec") && callis(1, "Frame.runDefers")
 //@   exit [body-exception-wins] ncalls == 2 && !(callres(0) === nil) ==> result === callres(0)
 //@   exit [defer-exception-if-body-succeeded] ncalls == 2 && callres(0) === nil ==> result === callres(1)
+
+// ---------------------------------------------------------------------------
+// C10: order. The sorting itself is sort.Stable (trusted: a stable permutation
+// sorted by Less when Less is a strict weak order - C09 for the builtin
+// comparison). What is proved here is everything order adds around it: which
+// comparison Less consults, the error latch, Swap keeping values and keys
+// aligned, the option checks, "no output unless sorting succeeded", and the
+// output loop writing exactly the sorted values in order.
+
+// An Inputs value calls its callback only while it runs (assumed for every value of the type).
+//@ func Inputs
+//@   params f
+//@   noescape f
+
+// Writing a value / running a callback with captured output cannot reach the
+// Go-level state of the sorter (assumed).
+//@ func ValueOutput.Put
+//@   trusted
+//@   pure
+//@ func Frame.CaptureOutput
+//@   trusted
+//@   pure
+//@   noescape f
+
+//@ spec fn kv(s *slice, i int) any = len(s.keys) > 0 ? s.keys[i] : s.values[i]
+
+//@ func slice.Len
+//@   props C10
+//@   pure
+//@   ensures result == len(s.values)
+
+//@ func slice.Less
+//@   props C10
+//@   requires 0 <= i && i < len(s.values) && 0 <= j && j < len(s.values)
+//@   requires s.keys == nil || len(s.keys) == len(s.values)
+//@   log Cmp CmpTotal CaptureOutput
+//@   opaque Cmp CmpTotal
+//@   exit [error-latched] !(old(s.err) === nil) ==> result && ncalls == 0 && s.err === old(s.err)
+//@   exit [no-error-one-comparison] old(s.err) === nil ==> ncalls == 1
+//@   exit [builtin-comparison] old(s.err) === nil && s.lessThan === nil && !s.total ==> callis(0, "Cmp")
+//@   exit [total-comparison] old(s.err) === nil && s.lessThan === nil && s.total ==> callis(0, "CmpTotal") && s.err === nil && result == (callres(0).(vals.Ordering) == vals.CmpLess)
+//@   exit [callback-comparison] old(s.err) === nil && !(s.lessThan === nil) ==> callis(0, "CaptureOutput")
+//@   exit [less-iff-smaller] old(s.err) === nil && s.lessThan === nil && !s.total && callres(0).(vals.Ordering) != vals.CmpUncomparable ==> s.err === nil && result == (callres(0).(vals.Ordering) == vals.CmpLess)
+//@   exit [uncomparable-latched] old(s.err) === nil && s.lessThan === nil && !s.total && callres(0).(vals.Ordering) == vals.CmpUncomparable ==> result && !(s.err === nil)
+//@   exit [callback-failure-latched] old(s.err) === nil && !(s.lessThan === nil) && !(callerr(0) === nil) ==> result && s.err === callerr(0)
+
+//@ func slice.Swap
+//@   props C10
+//@   requires 0 <= i && i < len(s.values) && 0 <= j && j < len(s.values)
+//@   requires s.keys == nil || (len(s.keys) == len(s.values) && ref(s.keys) != ref(s.values))
+//@   ensures [values-swapped] s.values[i] === old(s.values[j]) && s.values[j] === old(s.values[i])
+//@   ensures [keys-swapped-with-values] s.keys != nil ==> s.keys[i] === old(s.keys[j]) && s.keys[j] === old(s.keys[i])
+//@   ensures [others-kept] forall k int :: 0 <= k && k < len(s.values) && k != i && k != j ==> s.values[k] === old(s.values[k])
+//@   ensures [error-kept] s.err === old(s.err)
+
+//@ func order
+//@   props C10
+//@   log fv sort.Stable sort.Reverse ValueOutput.Put CaptureOutput
+//@   loop 1 invariant ncallsof("ValueOutput.Put") == 0 && ncallsof("sort.Stable") == 0 && ncallsof("sort.Reverse") == 0
+//@   loop 1 invariant len(keys) == len(values)
+//@   loop 2 invariant ncallsof("sort.Stable") == 1 && (ncallsof("sort.Reverse") == 1) == opts.Reverse
+//@   loop 2 invariant ncallsof("ValueOutput.Put") == range_pos
+//@   loop 2 invariant forall k int :: 0 <= k && k < range_pos ==> callis(ncalls - range_pos + k, "ValueOutput.Put") && callarg(ncalls - range_pos + k) === values[k]
+//@   exit [conflicting-options-rejected-before-input] opts.Total && !(opts.LessThan === nil) ==> ncalls == 0 && !(result === nil)
+//@   exit [stably-sorted-before-output] ncallsof("ValueOutput.Put") > 0 ==> ncallsof("sort.Stable") == 1
+//@   exit [reverse-option] ncallsof("sort.Stable") == 1 ==> (ncallsof("sort.Reverse") == 1) == opts.Reverse
+//@   exit [no-output-unless-sorting-succeeded] !(result === nil) ==> ncallsof("ValueOutput.Put") == 0 || result === callerr(ncalls - 1)
+//@   exit [all-values-output] result === nil ==> ncallsof("ValueOutput.Put") == len(values)
+//@   exit [output-in-sorted-order] result === nil ==> (forall k int :: 0 <= k && k < len(values) ==> callis(ncalls - len(values) + k, "ValueOutput.Put") && callarg(ncalls - len(values) + k) === values[k])
